@@ -220,6 +220,163 @@ pub fn run(run: &Run) {
             }
         }
     });
+    // thread generations: 4 long-lived threads keep classifying their own small working sets while 3000 (thorough: 20000) short-lived threads are
+    // started one after the other, each classifying its own working set 40 times over (state keyed on a per-thread sequence number
+    // that wraps at 64 / 128 / 256 / 512 / 1024 threads, shared between a live thread and a later one)
+    let generations = run.pick(3000usize, 20000usize);
+    run.par("thread_generations", false, |tid, _n, l| {
+        if tid != 0 {
+            return;
+        }
+        let d = db();
+        // working sets: half from a family with one common low byte (different outcomes), half from a broad pool
+        let mut seed = run.seed ^ 0x7467_656e;
+        let mut pool: Vec<u32> = Vec::new();
+        for cp in 0x80u32..0x30000 {
+            if !(0xd800..0xe000).contains(&cp) && (cp < 0x3400 || cp % 97 == 0) {
+                pool.push(cp);
+            }
+        }
+        let mk_set = |seed: &mut u64| -> Vec<u32> {
+            let low = [0xaau32, 0xb2, 0x63, 0x21, 0xa0, 0x41, 0xc4, 0x0][(splitmix(seed) % 8) as usize];
+            let mut v: Vec<u32> = Vec::new();
+            for _ in 0..24 {
+                let hi = (splitmix(seed) % 0x300) as u32;
+                let cp = (hi << 8) | low;
+                if !(0xd800..0xe000).contains(&cp) {
+                    v.push(cp);
+                }
+            }
+            for _ in 0..24 {
+                v.push(pool[(splitmix(seed) % pool.len() as u64) as usize]);
+            }
+            v
+        };
+        let stop = std::sync::atomic::AtomicBool::new(false);
+        let bad: std::sync::Mutex<Option<Violation>> = std::sync::Mutex::new(None);
+        let work = |set: &[u32], rounds: usize, who: &str| -> u64 {
+            let idc = IdentifierClass::default();
+            let ffc = FreeformClass::default();
+            let mut calls = 0u64;
+            for r in 0..rounds {
+                for (i, cp) in set.iter().enumerate() {
+                    let (gi, gf) = if (r + i) % 2 == 0 {
+                        (Dpv::of(idc.get_value_from_codepoint(*cp)), Dpv::of(ffc.get_value_from_codepoint(*cp)))
+                    } else {
+                        let c = char::from_u32(*cp).unwrap();
+                        (Dpv::of(idc.get_value_from_char(c)), Dpv::of(ffc.get_value_from_char(c)))
+                    };
+                    calls += 2;
+                    if gi != d.id(*cp) || gf != d.ff(*cp) {
+                        let mut b = bad.lock().unwrap();
+                        if b.is_none() {
+                            let (class, got, want) = if gi != d.id(*cp) { ("IdentifierClass", gi, d.id(*cp)) } else { ("FreeformClass", gf, d.ff(*cp)) };
+                            *b = Some(Violation::new(
+                                json!({"op": "classify_thread_generations", "cp_value": cp, "class": class, "thread": who, "working_set": set, "note": "4 long-lived threads and one short-lived thread at a time were classifying their own working sets"}),
+                                format!("{want:?} (independent of other threads and of how many threads the process has started)"),
+                                format!("{got:?}"),
+                            ));
+                        }
+                        return calls;
+                    }
+                }
+            }
+            calls
+        };
+        let long_sets: Vec<Vec<u32>> = (0..4).map(|_| mk_set(&mut seed)).collect();
+        let total = std::sync::atomic::AtomicU64::new(0);
+        std::thread::scope(|s| {
+            for (i, set) in long_sets.iter().enumerate() {
+                let (stop, work, total) = (&stop, &work, &total);
+                s.spawn(move || {
+                    while !stop.load(std::sync::atomic::Ordering::Relaxed) {
+                        total.fetch_add(work(set, 4, &format!("long-lived {i}")), std::sync::atomic::Ordering::Relaxed);
+                    }
+                });
+            }
+            for g in 0..generations {
+                let set = mk_set(&mut seed);
+                let work = &work;
+                let calls = s.spawn(move || work(&set, 40, &format!("short-lived {g}"))).join().unwrap_or(0);
+                total.fetch_add(calls, std::sync::atomic::Ordering::Relaxed);
+                l.cases += 1;
+                if bad.lock().unwrap().is_some() || run.stopped() {
+                    break;
+                }
+            }
+            stop.store(true, std::sync::atomic::Ordering::Relaxed);
+        });
+        l.evals_n(total.load(std::sync::atomic::Ordering::Relaxed));
+        let found = bad.lock().unwrap().take();
+        if let Some(v) = found {
+            run.violate(v);
+        }
+    });
+    // lookups made while a thread is being torn down (from the destructor of a caller's thread-local value, registered before or after
+    // the thread's first lookup): 256 threads with generated working sets
+    run.par("calls_during_thread_teardown", false, |tid, _n, l| {
+        if tid != 0 {
+            return;
+        }
+        let d = db();
+        let mut seed = run.seed ^ 0x746c_7364;
+        let compat: Vec<u32> = (0xa0u32..0x30000).filter(|cp| d.id(*cp) == Dpv::SpecDis && d.ff(*cp) == Dpv::SpecPval).collect();
+        let found: std::sync::Arc<std::sync::Mutex<Vec<(u32, String, bool)>>> = Default::default();
+        let calls = std::sync::Arc::new(std::sync::atomic::AtomicU64::new(0));
+        for k in 0..256usize {
+            let mut set: Vec<u32> = vec![0x61, 0xaa, 0xb2, 0x2163, 0xff21, 0x1d400, 0x2f800, 0x200c, 0x378, 0x20];
+            for _ in 0..30 {
+                set.push(compat[(splitmix(&mut seed) % compat.len() as u64) as usize]);
+                set.push((splitmix(&mut seed) % 0x30000) as u32);
+            }
+            set.retain(|cp| !(0xd800..0xe000).contains(cp));
+            let before_first_lookup = k % 2 == 0;
+            let (found2, calls2) = (found.clone(), calls.clone());
+            let hook_set = set.clone();
+            let hook = move || {
+                let r = std::panic::catch_unwind(|| {
+                    let idc = IdentifierClass::default();
+                    let ffc = FreeformClass::default();
+                    for cp in &hook_set {
+                        let (gi, gf) = (Dpv::of(idc.get_value_from_codepoint(*cp)), Dpv::of(ffc.get_value_from_char(char::from_u32(*cp).unwrap())));
+                        calls2.fetch_add(2, std::sync::atomic::Ordering::Relaxed);
+                        if gi != db().id(*cp) || gf != db().ff(*cp) {
+                            found2.lock().unwrap().push((*cp, format!("IdentifierClass={gi:?} FreeformClass={gf:?}"), before_first_lookup));
+                            return;
+                        }
+                    }
+                });
+                if r.is_err() {
+                    found2.lock().unwrap().push((hook_set[0], "panic inside the lookup".to_string(), before_first_lookup));
+                }
+            };
+            let warm: Vec<u32> = set.iter().rev().take(12).copied().collect();
+            let h = std::thread::spawn(move || {
+                let mut hook = Some(hook);
+                if before_first_lookup {
+                    at_thread_exit(Box::new(hook.take().unwrap()));
+                }
+                let idc = IdentifierClass::default();
+                for cp in &warm {
+                    std::hint::black_box(idc.get_value_from_codepoint(*cp));
+                }
+                if let Some(hk) = hook.take() {
+                    at_thread_exit(Box::new(hk));
+                }
+            });
+            let _ = h.join();
+            l.cases += 1;
+            if let Some((cp, got, before)) = found.lock().unwrap().first().cloned() {
+                run.violate(Violation::new(
+                    json!({"op": "classify_during_thread_teardown", "cp_value": cp, "hook_registered_before_first_lookup": before, "note": "lookup made from the destructor of a thread-local value of the caller while the thread ends"}),
+                    format!("IdentifierClass={:?} FreeformClass={:?} (independent of where the call is made from)", d.id(cp), d.ff(cp)),
+                    got,
+                ));
+                break;
+            }
+        }
+        l.evals_n(calls.load(std::sync::atomic::Ordering::Relaxed));
+    });
     // every in-range valid code point paired with its aliases at +2^21 .. +2^31 (same thread, alternating)
     run.par("aliases_of_valid_code_points", true, |tid, n, l| {
         let d = db();
@@ -244,6 +401,28 @@ pub fn run(run: &Run) {
 
 pub fn replay(_run: &Run, case: &Value) -> Check {
     let cp = case.get("cp_value").and_then(|v| v.as_u64()).expect("cp_value") as u32;
+    if case.get("op").and_then(|o| o.as_str()) == Some("classify_during_thread_teardown") {
+        let before = case["hook_registered_before_first_lookup"].as_bool().unwrap_or(true);
+        let res: std::sync::Arc<std::sync::Mutex<Option<Check>>> = Default::default();
+        let res2 = res.clone();
+        let hook = move || {
+            let r = std::panic::catch_unwind(|| check_cp(cp, &mut Local::default()));
+            *res2.lock().unwrap() = Some(r.unwrap_or_else(|_| Err(Violation::new(json!({"cp_value": cp}), "returns", "panic inside the lookup"))));
+        };
+        let _ = std::thread::spawn(move || {
+            let mut hook = Some(hook);
+            if before {
+                at_thread_exit(Box::new(hook.take().unwrap()));
+            }
+            std::hint::black_box(IdentifierClass::default().get_value_from_codepoint(0x61));
+            if let Some(h) = hook.take() {
+                at_thread_exit(Box::new(h));
+            }
+        })
+        .join();
+        let out = res.lock().unwrap().take();
+        return out.unwrap_or(Ok(()));
+    }
     // cases that depend on earlier calls on the same thread carry their history
     if let Some(h) = case.get("history").and_then(|h| h.as_array()) {
         let mut l = Local::default();
